@@ -264,3 +264,14 @@ func SortedKeys[V any](m map[string]V) []string {
 }
 
 var _ = simcore.Yield
+
+// FiredSnapshot returns a copy of the per-kind fault counters.
+func (e *Env) FiredSnapshot() map[string]int {
+	e.mu.Lock()
+	defer e.mu.Unlock()
+	m := make(map[string]int, len(e.Fired))
+	for k, v := range e.Fired {
+		m[k] = v
+	}
+	return m
+}
